@@ -4,10 +4,10 @@ K == {"a", "b", "c", "d"}
 L == {"a", "b"}
 R(k, kind) == [k |-> k, kind |-> kind]
 Leaf == [leaf |-> TRUE, start |-> <<>>, dynOn |-> None, dynThen |-> <<>>, dynElse |-> <<>>, disc |-> <<>>,
-         proj |-> <<>>, base |-> 0, force |-> FALSE, valid |-> TRUE, sig |-> 1]
+         proj |-> <<>>, base |-> 0, force |-> FALSE, valid |-> TRUE, sig |-> 1, out |-> FALSE]
 Rec(s, on, th, el, ds, pj, b, f, v) ==
   [leaf |-> FALSE, start |-> s, dynOn |-> on, dynThen |-> th, dynElse |-> el, disc |-> ds, proj |-> pj,
-   base |-> b, force |-> f, valid |-> v, sig |-> 1]
+   base |-> b, force |-> f, valid |-> v, sig |-> 1, out |-> FALSE]
 CProgSeq == << Rec(<<R("a","in"), R("b","in")>>, None, <<>>, <<>>, <<>>, <<"a","b">>, 0, FALSE, TRUE),
             Rec(<<R("a","in")>>, "a", <<R("b","in")>>, <<>>, <<>>, <<"a","b">>, 1, FALSE, TRUE),
             Rec(<<R("b","follow"), R("a","in")>>, None, <<>>, <<>>, <<>>, <<"a">>, 0, FALSE, TRUE),
